@@ -173,6 +173,7 @@ package zap
 //@ func (*zap.Logger).Check
 //@   props C05 C06 C15
 //@   flags nopanic
+//@   modifies $user, zapcore.CheckedEntry.cores, zapcore.CheckedEntry.after, zapcore.CheckedEntry.ErrorOutput, zapcore.CheckedEntry.Entry, zapcore.CheckedEntry.dirty, comp(E:zapcore.Core), comp(E:uint8), comp(E:uintptr), buffer.Buffer.bs, stacktrace.Formatter.nonEmpty
 //@   requires log != nil && log.core != nil && log.clock != nil && log.addStack != nil && log.errorOutput != nil
 //@   requires 0 <= log.callerSkip && log.callerSkip <= 1 << 20
 //@   track C = call (*zap.Logger).check
@@ -194,6 +195,7 @@ package zap
 //@ func (*zap.Logger).Debug
 //@   props C06 C15 C05
 //@   flags nopanic propagates-panics
+//@   modifies $user, zapcore.CheckedEntry.cores, zapcore.CheckedEntry.after, zapcore.CheckedEntry.ErrorOutput, zapcore.CheckedEntry.Entry, zapcore.CheckedEntry.dirty, comp(E:zapcore.Core), comp(E:uint8), comp(E:uintptr), buffer.Buffer.bs, stacktrace.Formatter.nonEmpty
 //@   requires log != nil && log.core != nil && log.clock != nil && log.addStack != nil && log.errorOutput != nil
 //@   requires 0 <= log.callerSkip && log.callerSkip <= 1 << 20
 //@   track C = call (*zap.Logger).check
@@ -205,6 +207,7 @@ package zap
 //@ func (*zap.Logger).Info
 //@   props C06 C15 C05
 //@   flags nopanic propagates-panics
+//@   modifies $user, zapcore.CheckedEntry.cores, zapcore.CheckedEntry.after, zapcore.CheckedEntry.ErrorOutput, zapcore.CheckedEntry.Entry, zapcore.CheckedEntry.dirty, comp(E:zapcore.Core), comp(E:uint8), comp(E:uintptr), buffer.Buffer.bs, stacktrace.Formatter.nonEmpty
 //@   requires log != nil && log.core != nil && log.clock != nil && log.addStack != nil && log.errorOutput != nil
 //@   requires 0 <= log.callerSkip && log.callerSkip <= 1 << 20
 //@   track C = call (*zap.Logger).check
@@ -216,6 +219,7 @@ package zap
 //@ func (*zap.Logger).Warn
 //@   props C06 C15 C05
 //@   flags nopanic propagates-panics
+//@   modifies $user, zapcore.CheckedEntry.cores, zapcore.CheckedEntry.after, zapcore.CheckedEntry.ErrorOutput, zapcore.CheckedEntry.Entry, zapcore.CheckedEntry.dirty, comp(E:zapcore.Core), comp(E:uint8), comp(E:uintptr), buffer.Buffer.bs, stacktrace.Formatter.nonEmpty
 //@   requires log != nil && log.core != nil && log.clock != nil && log.addStack != nil && log.errorOutput != nil
 //@   requires 0 <= log.callerSkip && log.callerSkip <= 1 << 20
 //@   track C = call (*zap.Logger).check
@@ -227,6 +231,7 @@ package zap
 //@ func (*zap.Logger).Error
 //@   props C06 C15 C05
 //@   flags nopanic propagates-panics
+//@   modifies $user, zapcore.CheckedEntry.cores, zapcore.CheckedEntry.after, zapcore.CheckedEntry.ErrorOutput, zapcore.CheckedEntry.Entry, zapcore.CheckedEntry.dirty, comp(E:zapcore.Core), comp(E:uint8), comp(E:uintptr), buffer.Buffer.bs, stacktrace.Formatter.nonEmpty
 //@   requires log != nil && log.core != nil && log.clock != nil && log.addStack != nil && log.errorOutput != nil
 //@   requires 0 <= log.callerSkip && log.callerSkip <= 1 << 20
 //@   track C = call (*zap.Logger).check
@@ -238,6 +243,7 @@ package zap
 //@ func (*zap.Logger).DPanic
 //@   props C06 C15 C05
 //@   flags nopanic propagates-panics
+//@   modifies $user, zapcore.CheckedEntry.cores, zapcore.CheckedEntry.after, zapcore.CheckedEntry.ErrorOutput, zapcore.CheckedEntry.Entry, zapcore.CheckedEntry.dirty, comp(E:zapcore.Core), comp(E:uint8), comp(E:uintptr), buffer.Buffer.bs, stacktrace.Formatter.nonEmpty
 //@   requires log != nil && log.core != nil && log.clock != nil && log.addStack != nil && log.errorOutput != nil
 //@   requires 0 <= log.callerSkip && log.callerSkip <= 1 << 20
 //@   track C = call (*zap.Logger).check
@@ -251,6 +257,7 @@ package zap
 //@ func (*zap.Logger).Panic
 //@   props C06 C15 C05
 //@   flags nopanic propagates-panics
+//@   modifies $user, zapcore.CheckedEntry.cores, zapcore.CheckedEntry.after, zapcore.CheckedEntry.ErrorOutput, zapcore.CheckedEntry.Entry, zapcore.CheckedEntry.dirty, comp(E:zapcore.Core), comp(E:uint8), comp(E:uintptr), buffer.Buffer.bs, stacktrace.Formatter.nonEmpty
 //@   requires log != nil && log.core != nil && log.clock != nil && log.addStack != nil && log.errorOutput != nil
 //@   requires 0 <= log.callerSkip && log.callerSkip <= 1 << 20
 //@   track C = call (*zap.Logger).check
@@ -264,6 +271,7 @@ package zap
 //@ func (*zap.Logger).Fatal
 //@   props C06 C15 C05
 //@   flags nopanic propagates-panics
+//@   modifies $user, zapcore.CheckedEntry.cores, zapcore.CheckedEntry.after, zapcore.CheckedEntry.ErrorOutput, zapcore.CheckedEntry.Entry, zapcore.CheckedEntry.dirty, comp(E:zapcore.Core), comp(E:uint8), comp(E:uintptr), buffer.Buffer.bs, stacktrace.Formatter.nonEmpty
 //@   requires log != nil && log.core != nil && log.clock != nil && log.addStack != nil && log.errorOutput != nil
 //@   requires 0 <= log.callerSkip && log.callerSkip <= 1 << 20
 //@   track C = call (*zap.Logger).check
@@ -277,6 +285,7 @@ package zap
 //@ func (*zap.Logger).Log
 //@   props C06 C15 C05
 //@   flags nopanic propagates-panics
+//@   modifies $user, zapcore.CheckedEntry.cores, zapcore.CheckedEntry.after, zapcore.CheckedEntry.ErrorOutput, zapcore.CheckedEntry.Entry, zapcore.CheckedEntry.dirty, comp(E:zapcore.Core), comp(E:uint8), comp(E:uintptr), buffer.Buffer.bs, stacktrace.Formatter.nonEmpty
 //@   requires log != nil && log.core != nil && log.clock != nil && log.addStack != nil && log.errorOutput != nil
 //@   requires 0 <= log.callerSkip && log.callerSkip <= 1 << 20
 //@   track C = call (*zap.Logger).check
@@ -286,3 +295,32 @@ package zap
 //@   ensures #W == 1 ==> W.recv[0] == C.ret0[0] && W.arg0[0] == fields
 //@   assert at call 1 of (*zapcore.CheckedEntry).Write : (lvl == zapcore.PanicLevel ==> C.ret0[0].after == overrideHook(iface(type(zapcore.CheckWriteAction), zapcore.WriteThenPanic), log.onPanic)) && (lvl == zapcore.FatalLevel ==> C.ret0[0].after == overrideHook(iface(type(zapcore.CheckWriteAction), zapcore.WriteThenFatal), log.onFatal)) && !C.ret0[0].dirty
 //@   ensures lvl == zapcore.PanicLevel || lvl == zapcore.FatalLevel ==> #W == 1
+
+// ---------------------------------------------------------------------------
+// sugar.go (C14, C05, C06, C15)
+
+// Conservation (counting form): every consumed argument position is accounted for by exactly one
+// of: a field in the result, a diagnostic entry, a key/value pair turned into a field by Any
+// (two positions: one field + one Any call), or an invalid pair (two positions).
+//@ func (*zap.SugaredLogger).sweetenFields
+//@   props C14
+//@   flags nopanic propagates-panics
+//@   requires s != nil && s.base != nil && s.base.core != nil && s.base.clock != nil && s.base.addStack != nil && s.base.errorOutput != nil
+//@   requires 0 <= s.base.callerSkip && s.base.callerSkip <= 1 << 20
+//@   track DIAG = call (*zap.Logger).Error
+//@   track ANY = call zap.Any
+//@   track ARR = call zap.Array
+//@   ensures len(args) == 0 ==> len(result) == 0 && #DIAG == 0
+//@   ensures len(result) <= len(args)
+//@   ensures #ARR <= 1
+//@   loop 1 invariant 0 <= i && i <= len(args) && len(args) > 0 && s.base == old(s.base) && #ARR == 0
+//@   loop 1 invariant s.base.core != nil && s.base.clock != nil && s.base.addStack != nil && s.base.errorOutput != nil && s.base.callerSkip == old(s.base.callerSkip)
+//@   loop 1 invariant #DIAG >= 0 && #ANY >= 0
+//@   loop 1 invariant i == len(fields) + #DIAG + #ANY + 2 * len(invalid)
+//@   loop 1 invariant seenError ==> len(fields) >= 1
+
+// zap.Any is verified under C03; here only its frame is used.
+//@ func zap.Any
+//@   props C03
+//@   flags nopanic trusted
+//@   modifies nothing
